@@ -551,7 +551,7 @@ func Who(skip int) string {
 	return fmt.Sprintf("who %s %d %v", file, line, ok)
 }
 
-// Copy mostly provides a deep copy of maps.
+// Copy mostly provides a deep copy of maps and arrays.
 func Copy(x interface{}) interface{} {
 	switch vv := x.(type) {
 	case Map:
@@ -570,6 +570,14 @@ func Copy(x interface{}) interface{} {
 		acc := make(map[interface{}]interface{}, len(vv))
 		for k, v := range vv {
 			acc[k] = Copy(v)
+		}
+		return acc
+	case []interface{}:
+		// (An array can hold maps, and a script can write to the
+		// array itself.)
+		acc := make([]interface{}, len(vv))
+		for i, v := range vv {
+			acc[i] = Copy(v)
 		}
 		return acc
 	default:
